@@ -66,13 +66,19 @@ def make_source(name, flags, flux, err, x=0., y=0.):
 
 
 def make_fitter(model_dir, filter_names, apertures_arcsec, ext, av_range, distance_range_kpc=(1., 2.),
-                use_memmap=False, remove_resolved=False):
+                use_memmap=False, remove_resolved=False, distance_unit=None):
+    """`distance_range_kpc` holds the two numbers of the range in `distance_unit` (default kpc)"""
     from sedfitter.fit import Fitter
     with quiet():
         return Fitter(filter_names, np.array(apertures_arcsec, dtype=float) * u.arcsec, model_dir,
                       extinction_law=ext, av_range=tuple(av_range),
-                      distance_range=np.array(distance_range_kpc, dtype=float) * u.kpc,
+                      distance_range=np.array(distance_range_kpc, dtype=float) * u.Unit(distance_unit or 'kpc'),
                       use_memmap=use_memmap, remove_resolved=remove_resolved)
+
+
+def to_kpc(values, unit):
+    """the kpc floats the code derives from a distance range given in `unit` (`distance_range.to(u.kpc).value`)"""
+    return [float(x) for x in (np.array(values, dtype=float) * u.Unit(unit)).to(u.kpc).value]
 
 
 def fit_arrays(info):
